@@ -59,11 +59,15 @@ package linker
 //@ hashed isolated-hash C18: func=(*linkerContext).generateIsolatedHash ; in=linker ; sink=hashWriteLengthPrefixed:1,hashWriteUint32:1,Write:0 ; scenario=hash_placeholder_targets ; must=outputPiece.data>hashWriteLengthPrefixed,partRange.partIndexBegin,partRange.partIndexEnd,partRange.sourceIndex,PathTemplate.Data>hashWriteLengthPrefixed,Options.PublicPath>hashWriteLengthPrefixed,outputPiece.kind,outputPiece.index
 // the comment appended AFTER hashing ("//# sourceMappingURL=…", "/*! For license information please see … */") depends on these options
 //@ hashed trailing-comment-options C18: func=(*linkerContext).generateIsolatedHash ; in=linker ; sink=hashWriteLengthPrefixed:1,hashWriteUint32:1,Write:0 ; must=Options.LegalComments,Options.SourceMap
+// all three pieces of the chunk's source map (prefix with sources, mappings, suffix with names) are part of the content
+//@ hashed source-map-pieces C18: func=(*linkerContext).generateIsolatedHash ; in=linker ; sink=hashWriteLengthPrefixed:1,hashWriteUint32:1,Write:0 ; must=SourceMapPieces.Prefix>hashWriteLengthPrefixed,SourceMapPieces.Mappings>hashWriteLengthPrefixed,SourceMapPieces.Suffix>hashWriteLengthPrefixed
 //@ hashed legal-comments C18: func=(*linkerContext).generateIsolatedHash ; in=linker ; sink=hashWriteLengthPrefixed:1,hashWriteUint32:1,Write:0 ; scenario=legal_comments_hash ; must=chunkInfo.externalLegalComments>hashWriteLengthPrefixed
 //@ unguarded visit-every-import C18: func=(*linkerContext).appendIsolatedHashesForImportedChunks ; in=linker ; site=call appendIsolatedHashesForImportedChunks ; allow=false:visited[chunkIndex]==visitedKey ; argpath=2:c.chunks[chunkIndex].crossChunkImports[*].chunkIndex
 // the prefix written before a byte string is that string's own length (so "a"+"bc" and "ab"+"c" hash differently)
 //@ flow length-prefix-is-the-length C18: func=hashWriteLengthPrefixed ; in=linker ; site=call hashWriteUint32 ; argpath=1:call len(bytes)
-//@ flow asset-path-is-relative C18: func=(*linkerContext).appendIsolatedHashesForImportedChunks ; in=linker ; site=call hashWriteLengthPrefixed ; argpath=1:call ReplaceAll(call Rel(c.fs,c.options.AbsOutputDir,*.InputFile.AdditionalFiles[*].AbsPath)#0,*
+// every asset placeholder of the chunk contributes its path to the final hash: the only guards are the loop and the piece kind
+//@ unguarded every-asset-piece-is-hashed C18: func=(*linkerContext).appendIsolatedHashesForImportedChunks ; in=linker ; site=call hashWriteLengthPrefixed ; allow=false:visited[chunkIndex]==visitedKey,true:*.kind==*,false:*len(*)!=1*,true:*len(*)==1*
+//@ flow asset-path-is-relative C18 C08: func=(*linkerContext).appendIsolatedHashesForImportedChunks ; in=linker ; site=call hashWriteLengthPrefixed ; argpath=1:call ReplaceAll(call Rel(c.fs,c.options.AbsOutputDir,*.InputFile.AdditionalFiles[*].AbsPath)#0,*
 
 // C08: the comparators above break ties on StableSourceIndex. That is deterministic only if the field holds the
 // STABLE index of the file (its rank in the sorted module list, graph.StableSourceIndices), never the raw
